@@ -134,6 +134,7 @@ func (c *fakeCAS) Put(ctx context.Context, d digest.Digest, b buffer.Buffer) err
 		w.failedCtx[ctx] = true
 		w.mu.Unlock()
 		b.Discard()
+		w.arm(label+"=unavailable", true, batchLayer)
 		return errInjected
 	case 2:
 		w.noteFault(ctx, label+"=cancelled", batchLayer)
@@ -144,6 +145,7 @@ func (c *fakeCAS) Put(ctx context.Context, d digest.Digest, b buffer.Buffer) err
 		// everything that is woken up by this return sees it.
 		cancelAction(ctx)
 		b.Discard()
+		w.arm(label+"=cancelled", true, batchLayer)
 		return errCancelled
 	}
 
@@ -160,6 +162,7 @@ func (c *fakeCAS) Put(ctx context.Context, d digest.Digest, b buffer.Buffer) err
 	w.mu.Lock()
 	w.cas[w.key(d)] = data
 	w.mu.Unlock()
+	w.arm(label+"=ok", false, batchLayer)
 	return nil
 }
 
